@@ -49,7 +49,7 @@ RULE = ('Hypothesis: CamxSpec (format in uamiv[AVERAGE EMISSIONS AIRQUALITY '
         'are read in the window 1970-2069.  Non-trivial: (nspec>1 or format '
         'has >1 variable) and nz>1 and steps>1, or a day/year/century/leap '
         'roll-over inside the file, or a denormal / -0.0 payload.  Distinct '
-        'by sha1 of the case spec.' + '  Domain by construction: lateral_boundary nx, ny >= 2 (an edge needs its two corner cells), EMISSIONS nz = 1, AIRQUALITY one step, steps of whole hours (lateral_boundary 1 h), every instant incl. the last end time inside 1970-2069, species names not DATE/TFLAG/ETFLAG, a 3-variable cloud_rain file whose size is also a whole number of 5-variable steps is not generated (the format stores no variable count), old-style landuse with at most one optional field.  The record reader is exercised here for uamiv only (the other record readers are compared with the memmap readers under C13); files built from arrays for the wind writer always carry a stagger flag.' + '  Round-5 extensions: route pnc creates the data variables in a drawn permutation (the bytes written must not depend on creation order; VAR-LIST order of uamiv/lateral_boundary is content and is kept); w2r route refread = the memmap reader\'s view of the reference-encoded file is written while 0/1 bystander files of the same format and another grid/species count are open (or were opened and closed), lateral_boundary edge-definition records must equal the file\'s own; r2l for uamiv also produces little-endian files (words and markers byte-swapped, character words kept) opened with endian="little".')
+        'by sha1 of the case spec.' + '  Domain by construction: lateral_boundary nx, ny >= 2 (an edge needs its two corner cells), EMISSIONS nz = 1, AIRQUALITY one step, steps of whole hours (lateral_boundary 1 h), every instant incl. the last end time inside 1970-2069, species names not DATE/TFLAG/ETFLAG, a 3-variable cloud_rain file whose size is also a whole number of 5-variable steps is not generated (the format stores no variable count), old-style landuse with at most one optional field.  The record reader is exercised here for uamiv only (the other record readers are compared with the memmap readers under C13); files built from arrays for the wind writer always carry a stagger flag.' + '  Round-5 extensions: route pnc creates the data variables in a drawn permutation (the bytes written must not depend on creation order; VAR-LIST order of uamiv/lateral_boundary is content and is kept); w2r route refread = the memmap reader\'s view of the reference-encoded file is written while 0/1 bystander files of the same format and another grid/species count are open (or were opened and closed), lateral_boundary edge-definition records must equal the file\'s own; r2l for uamiv also produces little-endian files (words and markers byte-swapped, character words kept) opened with endian="little".' + '  Round-7 extensions: payload modes zeros / zslab (whole files or whole 2-D fields made of +-0 mixtures, -0.0 only, denormals only); w2r route refread may cut the re-read met file to a TSTEP/LAY/ROW/COL window before writing, the expected content being the window of the model; r2l single-layer EMISSIONS files are also encoded with nz = 0 in the grid header (2-D emissions) and must be presented with LAY = 1.')
 ASSUMPTIONS = ['vf.ref.camx_ref implements the CAMx layouts of DESIGN.md '
                'Appendix A; validated by vf.ref.selfcheck against the '
                'repository samples and the literal arrays of its tests',
@@ -81,6 +81,7 @@ def cases(draw, tier='quick'):
             spec['etflag'] = False
             spec['bystander'] = draw(st.sampled_from([None, 'alive',
                                                       'alive', 'closed']))
+            draw(C.input_slices(spec))
             return spec
         spec['etflag'] = bool(fmt == 'uamiv' and draw(st.booleans()))
         draw(C.input_dtypes(spec))
@@ -100,6 +101,10 @@ def cases(draw, tier='quick'):
             # with the memmap readers under C13
             rd = ['memmap', 'memmap', 'read']
         spec['reader'] = draw(st.sampled_from(rd))
+        if fmt == 'uamiv' and spec['name'] == 'EMISSIONS' and \
+                spec['nz'] == 1 and draw(st.booleans()):
+            # 2-D emission files carry nz = 0 in the grid header
+            spec['hdr_nz0'] = True
         if fmt == 'uamiv' and spec['reader'] == 'memmap' and \
                 draw(st.integers(0, 2)) == 0:
             # the uamiv memmap reader documents endian='little'
@@ -214,6 +219,9 @@ def build_refread(spec, keep):
         fo.write(C.ref_bytes(spec))
     f = C.open_lib(spec, p0, 'memmap')
     keep['files'].append(f)
+    if spec.get('slice'):
+        f = C.apply_slice(spec, f)
+        keep['files'].append(f)
     by = spec.get('bystander')
     if by:
         bs = C.bystander_spec(spec)
@@ -241,9 +249,14 @@ def check_w2r(r, spec, m):
 
 
 def _check_w2r(r, spec, m, keep):
+    orig = spec
+    if spec.get('slice'):
+        # the re-read file is cut to a window before it is written: the
+        # expected content is the window of the model
+        spec, m = C.sliced(spec, m)
     n0 = len(r.failures)
     if spec.get('route') == 'refread':
-        ok, f = guard(r, 'w2r-build', build_refread, spec, keep)
+        ok, f = guard(r, 'w2r-build', build_refread, orig, keep)
         built = (f,)
     else:
         ok, built = guard(r, 'w2r-build', C.build_lib, spec,
@@ -487,6 +500,9 @@ def check_case(spec):
                 'vdtype:' + spec.get('vdtype', 'f4'))
         if spec.get('route') == 'refread':
             r.label('bystander:%s' % spec.get('bystander'))
+            if spec.get('slice'):
+                r.label('sliced-before-write',
+                        *['slice:' + d for d in sorted(spec['slice'])])
         if spec.get('vorder'):
             r.label('creation-order-permuted')
         if spec.get('mask'):
@@ -496,6 +512,8 @@ def check_case(spec):
         r.label('reader:' + spec.get('reader', 'memmap'))
         if spec.get('endian') == 'little':
             r.label('endian:little')
+        if spec.get('hdr_nz0'):
+            r.label('hdr-nz=0')
         check_r2l(r, spec, m)
     return r
 
